@@ -398,7 +398,8 @@ def run(chk):
     # (2) conformance: implementation vs independent Python evaluation of the tree
     impl_lines = out_impl.split("\n")
     nbad = 0
-    for i, c in enumerate(cases):
+    for i in sorted(range(len(cases)), key=lambda j: (len(cases[j]["text"]), j)):      # smallest witnesses first
+        c = cases[i]
         line = impl_lines[i] if i < len(impl_lines) else "missing"
         if conformance(chk, c, line):
             nbad += 1
@@ -406,7 +407,7 @@ def run(chk):
                 break
     if mism:
         chk.broken.append(dict(kind="correspondence", stream="attribute actions: encoder+VM vs ops*/exec of Attr/AttrSpec.v", count=len(mism),
-                               first=[dict(case=m[1][:1500], implementation=m[2][:1500], model=m[3][:1500]) for m in mism[:5]]))
+                               first=[dict(case=m[1][:1500], implementation=m[2][:1500], model=m[3][:1500]) for m in sorted(mism, key=lambda m: len(m[1]))[:5]]))
     # (3) the evaluation functions ev* used in the theorems vs the Python oracle
     rc3, out_eval, _ = vlib.run_driver(model, "".join("eval " + c["tree"] + "\n" for c in cases))
     ev_lines = out_eval.split("\n")
